@@ -64,6 +64,7 @@ type scope struct {
 	iters   []string // objects that are only read: the subjects of for-in (never extended or shrunk)
 	withs   []string // objects used as `with` subjects: their properties are named like the global variables
 	inWith  string   // the subject of the innermost enclosing `with` generated in this function body
+	inCatch bool     // inside a catch block (the parameter `ex` is in scope)
 	inFunc  bool
 	rank    int
 	params  []string
@@ -438,6 +439,50 @@ func (g *Gen) stmt(sc *scope, labs []lab, loopDepth int, inLoop bool, ind string
 		e := g.num(sc, 1)
 		return []node{{w + "." + f + " = " + e.js + ";", fmt.Sprintf("(JExpr (XSet (XVar %s) %s %s))", cstr(w), cstr(f), e.coq)}}
 	}
+	if (sc.inWith != "" || sc.inCatch) && r.Intn(6) == 0 {
+		// `var x = v` inside with/catch: the value goes to the with subject's property / the catch parameter (12.2),
+		// the hoisted variable itself stays as it was
+		g.Stats["var-init-in-with-or-catch"]++
+		name := g.pick([]string{"g0", "g1", "g2"})
+		if sc.inCatch && (sc.inWith == "" || r.Intn(2) == 0) {
+			name = "ex"
+		}
+		e := g.num(sc, 1)
+		return []node{{"var " + name + " = " + e.js + ";", fmt.Sprintf("(JVar %s (Some %s))", cstr(name), e.coq)},
+			{"log(typeof " + name + ");", "(JExpr (XLog (XTypeof (XVar " + cstr(name) + "))))"}}
+	}
+	if loopDepth < 3 && r.Intn(40) == 0 {
+		// `break L` out of a loop or block nested in a clause of the labelled switch L: it must leave the switch,
+		// not only the nested statement (the nested statement must not inherit the pending label)
+		g.Stats["labelled-switch-escape"]++
+		id := g.nextLab
+		g.nextLab++
+		c := g.counter(loopDepth)
+		a, b, d := g.num(sc, 1), g.num(sc, 1), g.num(sc, 1)
+		var nestJS, nestCoq string
+		brk := fmt.Sprintf("(JBreak %d%%nat)", id)
+		if r.Intn(2) == 0 {
+			nestJS = fmt.Sprintf("%s = 0; while (%s++ < 2) { log(%s); break L%d; }", c, c, a.js, id)
+			nestCoq = fmt.Sprintf("JExpr (XAssign %s (XLit (WNum 0))); JWhile (XBin PLt (XPostInc %s) (XLit (WNum 2))) (JBlock [JExpr (XLog %s); %s])", cstr(c), cstr(c), a.coq, brk)
+		} else {
+			nestJS = fmt.Sprintf("{ log(%s); break L%d; }", a.js, id)
+			nestCoq = fmt.Sprintf("JBlock [JExpr (XLog %s); %s]", a.coq, brk)
+		}
+		js := fmt.Sprintf("L%d: switch (1) { case 1: %s log(%s); case 2: log(%s); }", id, nestJS, b.js, d.js)
+		coq := fmt.Sprintf("(JLabelled %d%%nat (JSwitch (XLit (WNum 1)) [(Some (XLit (WNum 1)), [%s; JExpr (XLog %s)]); (Some (XLit (WNum 2)), [JExpr (XLog %s)])]))", id, nestCoq, b.coq, d.coq)
+		return []node{{js, coq}}
+	}
+	if sc.inFunc && r.Intn(30) == 0 {
+		// un-map one index of the arguments object, then look at both sides of the former alias
+		g.Stats["delete-arguments"]++
+		i := r.Intn(2)
+		out := []node{{fmt.Sprintf("delete arguments[%d];", i), fmt.Sprintf("(JExpr (XDelete (XVar %s) %s))", cstr("arguments"), cstr(fmt.Sprintf("%d", i)))},
+			{fmt.Sprintf("log(arguments[%d]);", i), fmt.Sprintf("(JExpr (XLog (XIdx (XVar %s) (XLit (WNum %d)))))", cstr("arguments"), i)}}
+		if i < len(sc.params) {
+			out = append(out, node{"log(" + sc.params[i] + ");", "(JExpr (XLog (XVar " + cstr(sc.params[i]) + ")))"})
+		}
+		return out
+	}
 	k := r.Intn(100)
 	switch {
 	case k < 22:
@@ -489,8 +534,15 @@ func (g *Gen) stmt(sc *scope, labs []lab, loopDepth int, inLoop bool, ind string
 		g.Stats["labelled"]++
 		id := g.nextLab
 		g.nextLab++
-		if r.Intn(2) == 0 {
+		switch r.Intn(5) {
+		case 0, 1:
 			return g.loop(sc, labs, loopDepth, id, ind)
+		case 2:
+			// a labelled switch: `break L` from a loop or block nested in one of its clauses leaves the switch
+			inner := append(append([]lab{}, labs...), lab{id, false})
+			sw := g.switchStmt(sc, inner, loopDepth, inLoop, ind)
+			g.Stats["labelled-switch"]++
+			return []node{{fmt.Sprintf("L%d: %s", id, sw[0].js), fmt.Sprintf("(JLabelled %d%%nat %s)", id, sw[0].coq)}}
 		}
 		inner := append(append([]lab{}, labs...), lab{id, false})
 		b := block(g.list(sc, 1+r.Intn(3), inner, loopDepth, inLoop, in2), in2)
@@ -513,7 +565,9 @@ func (g *Gen) stmt(sc *scope, labs []lab, loopDepth int, inLoop bool, ind string
 		mode := r.Intn(3)
 		if mode != 1 {
 			// the catch parameter shadows nothing else: a fresh name bound only in the catch block
-			cb := g.list(sc, 1+r.Intn(2), labs, loopDepth, inLoop, in2)
+			csc := *sc
+			csc.inCatch = true
+			cb := g.list(&csc, 1+r.Intn(2), labs, loopDepth, inLoop, in2)
 			if r.Intn(2) == 0 {
 				cb = append([]node{{"log(ex);", "(JExpr (XLog (XVar " + cstr("ex") + ")))"}}, cb...)
 			}
